@@ -1,6 +1,7 @@
 package c18
 
 import (
+	"context"
 	"fmt"
 	"testing"
 	"time"
@@ -8,6 +9,7 @@ import (
 	"go.uber.org/zap"
 	"pgregory.net/rapid"
 
+	"go.opentelemetry.io/collector/component/componenttest"
 	"go.opentelemetry.io/collector/internal/memorylimiter"
 	"go.opentelemetry.io/collector/verifharness/vt"
 )
@@ -19,6 +21,9 @@ type Step struct {
 	First   uint64
 	Post    uint64
 	SleepMS int
+	// Life: a user of the limiter joins (Start) or leaves (Shutdown) before this step's check.  Users sharing
+	// one limiter come and go; neither event is a measurement, so the mode stays what the last check left.
+	Life string `json:",omitempty"`
 }
 
 // SMScript drives internal/memorylimiter directly: one limiter, a sequence of
@@ -48,6 +53,7 @@ func genSM(t *rapid.T) SMScript {
 	long := 0
 	for i := 0; i < n; i++ {
 		st := Step{First: genReading(t, th, "first"), Post: genReading(t, th, "post")}
+		st.Life = rapid.SampledFrom([]string{"", "", "", "start", "start", "stop"}).Draw(t, "life")
 		if realIv && long < 1 && i > 0 && rapid.IntRange(0, 2).Draw(t, "sleep") == 0 {
 			st.SleepMS = int(2*realMS) + 5
 			long++
@@ -104,9 +110,36 @@ func runSMInner(c *vt.C, s *SMScript, th Thr) (nontrivial bool, f *vt.Finding) {
 		c.Class("threshold-inexact(rounding band avoided)")
 	}
 	flips, prev := 0, false
+	users := 0
+	defer func() {
+		for ; users > 0; users-- {
+			_ = ml.Shutdown(context.Background())
+		}
+	}()
 	for i, st := range s.Steps {
 		if st.SleepMS > 0 {
 			time.Sleep(time.Duration(st.SleepMS) * time.Millisecond)
+		}
+		if st.Life == "start" || (st.Life == "stop" && users > 0) {
+			before := src.readings()
+			var lerr error
+			if st.Life == "start" {
+				lerr = ml.Start(context.Background(), componenttest.NewNopHost())
+				users++
+			} else {
+				lerr = ml.Shutdown(context.Background())
+				users--
+			}
+			if lerr != nil {
+				return true, vt.Failf("life/"+st.Life+"-error", "step %d: %s of a user returned %v (%d users afterwards)", i, st.Life, lerr, users)
+			}
+			c.Class(fmt.Sprintf("life:%s(previous mode refusing=%v)", st.Life, prev))
+			// no measurement was taken (the ticker is an hour away): the mode is still the last check's
+			if src.readings() == before {
+				if got := ml.MustRefuse(); got != prev {
+					return true, vt.Failf("state/changed-by-"+st.Life+"-of-a-user", "step %d: %s of a user (now %d) changed MustRefuse() from %v to %v although no memory measurement was taken (%v)", i, st.Life, users, prev, got, s.Cfg)
+				}
+			}
 		}
 		for !time.Now().After(gcHi) { // the harness' own clock must have advanced past the last GC
 		}
